@@ -38,11 +38,14 @@ func (vc *FnVC) addInputs(path, term string, t types.Type, depth int) {
 		add(path, term, "Int")
 		el := u.Elem()
 		if isBigInt(el) || isUint256(el) {
-			add("*"+path, vc.loadObject(term, el, entry), "Int")
+			cc, _ := vc.cellComp(el)
+			if _, used := vc.entryHeap[cc]; used {
+				add("*"+path, vc.loadObject(term, el, entry), "Int")
+			}
 			return
 		}
 		if structOf(el) != nil {
-			vc.addInputs("*"+path, vc.loadObject(term, el, entry), el, depth+1)
+			vc.addInputsRef("*"+path, term, el, depth+1)
 		}
 	case *types.Struct:
 		for i := 0; i < u.NumFields(); i++ {
@@ -56,6 +59,9 @@ func (vc *FnVC) addInputs(path, term string, t types.Type, depth int) {
 		if !isObjectType(u.Elem()) {
 			if _, ok := u.Elem().Underlying().(*types.Basic); ok {
 				c, s := vc.elemComp(u.Elem())
+				if _, used := vc.entryHeap[c]; !used {
+					return
+				}
 				for i := 0; i < replayMaxElems; i++ {
 					add(fmt.Sprintf("%s[%d]", path, i), fmt.Sprintf("(select (select %s (s.arr %s)) (+ (s.off %s) %d))", entry(c, s), term, term, i), vc.sortOf(u.Elem()))
 				}
@@ -68,6 +74,60 @@ func (vc *FnVC) addInputs(path, term string, t types.Type, depth int) {
 			for i := 0; i < int(u.Len()); i++ {
 				add(fmt.Sprintf("%s[%d]", path, i), fmt.Sprintf("(select %s %d)", term, i), vc.sortOf(u.Elem()))
 			}
+		}
+	}
+}
+
+// addInputsRef registers model variables for the object of type t living at ref
+// (entry state), navigating by reference so that terms stay small.
+func (vc *FnVC) addInputsRef(path, ref string, t types.Type, depth int) {
+	if depth > 3 || len(vc.inputs) > 400 {
+		return
+	}
+	entry := func(comp, sort string) string { return vc.entryComp(comp, sort) }
+	st := structOf(t)
+	if st == nil {
+		return
+	}
+	for i := 0; i < st.NumFields(); i++ {
+		f := st.Field(i)
+		ft := f.Type()
+		p := path + "." + f.Name()
+		if isUint256(ft) {
+			if _, used := vc.entryHeap["U256"]; used {
+				vc.inputs = append(vc.inputs, ModelVar{p, vc.loadObject(vc.fldRef(t, i, ref), ft, entry), "Int"})
+			}
+			continue
+		}
+		if isObjectType(ft) {
+			fn := "fld$" + shortTypeName(t) + "$" + f.Name()
+			if structOf(ft) != nil && vc.subrefDeclared[fn] {
+				vc.addInputsRef(p, vc.fldRef(t, i, ref), ft, depth+1)
+			}
+			continue
+		}
+		c, s := vc.fieldComp(t, i)
+		if _, used := vc.entryHeap[c]; !used {
+			continue
+		}
+		sel := fmt.Sprintf("(select %s %s)", entry(c, s), ref)
+		switch u := ft.Underlying().(type) {
+		case *types.Basic:
+			vc.inputs = append(vc.inputs, ModelVar{p, sel, vc.sortOf(ft)})
+		case *types.Pointer:
+			vc.inputs = append(vc.inputs, ModelVar{p, sel, "Int"})
+			if isBigInt(u.Elem()) || isUint256(u.Elem()) {
+				cc, _ := vc.cellComp(u.Elem())
+				if _, used := vc.entryHeap[cc]; used {
+					vc.inputs = append(vc.inputs, ModelVar{"*" + p, vc.loadObject(sel, u.Elem(), entry), "Int"})
+				}
+			} else if structOf(u.Elem()) != nil && depth < 2 {
+				vc.addInputsRef("*"+p, sel, u.Elem(), depth+1)
+			}
+		case *types.Interface:
+			vc.inputs = append(vc.inputs, ModelVar{p, sel, "Int"})
+		case *types.Slice:
+			vc.inputs = append(vc.inputs, ModelVar{p + ".len", fmt.Sprintf("(s.len %s)", sel), "Int"})
 		}
 	}
 }
@@ -137,12 +197,24 @@ func (g *replayGen) goValue(path string, t types.Type) string {
 			if !f.Exported() && f.Pkg() != g.pkg {
 				continue
 			}
-			switch f.Type().Underlying().(type) {
+			switch ft := f.Type().Underlying().(type) {
 			case *types.Basic, *types.Struct, *types.Slice:
 				parts = append(parts, fmt.Sprintf("%s: %s", f.Name(), g.goValue(path+"."+f.Name(), f.Type())))
 			case *types.Array:
 				if isUint256(f.Type()) {
 					parts = append(parts, fmt.Sprintf("%s: %s", f.Name(), g.goValue(path+"."+f.Name(), f.Type())))
+				}
+			case *types.Pointer:
+				if isBigInt(ft.Elem()) || isUint256(ft.Elem()) || structOf(ft.Elem()) != nil {
+					if _, has := g.mv(path + "." + f.Name()); has {
+						parts = append(parts, fmt.Sprintf("%s: %s", f.Name(), g.goValue(path+"."+f.Name(), f.Type())))
+					}
+				} else if _, has := g.mv(path + "." + f.Name()); has {
+					g.errs = append(g.errs, "field "+f.Name()+" of unsupported pointer type is read by the function")
+				}
+			case *types.Interface, *types.Map, *types.Chan, *types.Signature:
+				if _, has := g.mv(path + "." + f.Name()); has {
+					g.errs = append(g.errs, "field "+path+"."+f.Name()+" ("+f.Type().String()+") is read by the function and cannot be constructed")
 				}
 			}
 		}
